@@ -63,6 +63,10 @@ const zzBurst = 4 // the property's bound: four responses per source IP and inte
 func zzAmplStep(svc zzUDPService, allow func(net.Addr) bool, payload []byte) {
 	zzRemaining, zzGrants, zzBadRate = nil, 0, false
 	ip1, ip2 := net.IPv4(10, 1, 1, 1), net.IPv4(10, 2, 2, 2)
+	if zzLen(0, 1) == 1 {
+		// two distinct IPv6 sources
+		ip1, ip2 = net.ParseIP("2001:db8::1"), net.ParseIP("2001:db8::2")
+	}
 	k := zzLen(0, zzBurst+1)
 	j := zzLen(0, 2)
 	for i := 0; i < k; i++ {
